@@ -14,6 +14,11 @@ Decided (shared with C08/C09 through the functions below):
   R07.5  a team is booked only when every member is available and within the task limits for the slot (= C03 R03.1)
   R07.6  a slot is booked only under the availability and task-limit facts for that slot and resource (= C03 R03.6)
   R07.7  "within limits": the daily / weekly limit period of a slot is its calendar day / week (= C05 R05.6)
+  R07.8  one roll-up call closes every complete nesting level: a task depending on an outer container is ready in the next
+         round (= C10 R10.7)
+  R07.9  the limit objects the scheduler consults are complete copies of the declared ones (= C05 R05.7)
+  R07.10 no calendar, limit or readiness answer comes from state that outlives the question (memo keys, attribute slots,
+         class-/module-level containers; common.process_state_rule)
 Not decided: equality with an independent reference scheduler — a relation between computed values that
 no static argument in reach can establish.
 """
@@ -329,6 +334,13 @@ def cursor_rules(ctx: Ctx, rule: str):
         raise AnchorMissing(f"cursor initialisations found: {cnt}")
 
 
+def run_extra(ctx: Ctx):
+    # ---------------------------------------------------------------- R07.10 answers never come from state that outlives the question
+    from .common import process_state_rule
+    process_state_rule(ctx, "R07.10", [ctx.repo.func("Project.schedule"), ctx.repo.func("ProjectFileParser.parse")],
+                       "the calendar, limit or readiness answer the list schedule is built from belongs to another slot, scenario or project")
+
+
 def run(ctx: Ctx):
     sort_rules(ctx, "R07.1")
     scan_rules(ctx, "R07.2")
@@ -343,6 +355,14 @@ def run(ctx: Ctx):
     from .c05 import period_index_rule
     period_index_rule(ctx, "R07.7")
     ctx.floor("R07.7", 2)
+    # ---------------------------------------------------------------- R07.8 "as soon as all predecessors are placed": one roll-up call
+    # closes every complete nesting level, so a task that depends on an outer container is ready in the very next round (= C10 R10.7)
+    from .c10 import rollup_order_rule
+    rollup_order_rule(ctx, "R07.8")
+    # ---------------------------------------------------------------- R07.9 "within limits": the limit objects the scheduler consults
+    # are complete copies of the declared ones (= C05 R05.7)
+    from .c05 import limit_copy_rule
+    limit_copy_rule(ctx, "R07.9")
     ctx.floor("R07.4", 8)
     ctx.floor("R07.5", 5)
     ctx.floor("R07.6", 1)
